@@ -112,7 +112,7 @@ PairSets ==
      << << Key255, Val255 >> >>,
      << << KeyA, << 61, 59 >> >>, << << 59, 61 >>, << 0, 255 >> >> >>,   \* delimiters and extreme bytes inside strings
      << << KeyA, ValX >>, << KeyB, ValX >>, << << 99 >>, ValX >> >>,
-     CollisionPairs >>
+     CollisionPairs, PrefixPairs >>
 MappingTails == << << >>, << 0 >>, Fill(7, 2) >>
 Junk == << << >>, << 1 >>, << 1, 97 >>, << 1, 97, 61 >>, << 1, 97, 61, 0 >>, << 1, 97, 61, 1, 120 >>, << 0, 61, 0, 60 >>, << 1, 97, 61, 1, 120, 58 >>,
            << 5, 97 >> >>
